@@ -75,6 +75,9 @@ pub struct Config {
     /// (node, port) configured masterOnly: ports that face away from the grandmaster
     #[serde(default)]
     pub master_only: Vec<(usize, usize)>,
+    /// announceReceiptTimeout of every port (0 = the default of 3)
+    #[serde(default)]
+    pub receipt_timeout: u8,
 }
 
 fn node_spec(c: &Config, i: usize) -> NodeSpec {
@@ -97,7 +100,7 @@ fn node_spec(c: &Config, i: usize) -> NodeSpec {
         n.class = 7 + r;
     }
     n.slave_only = c.slave_only_node == Some(i);
-    n.ports = (0..c.topo.ports[i]).map(|p| PortSpec { log_sync: 3, master_only: c.master_only.contains(&(i, p)), ..Default::default() }).collect();
+    n.ports = (0..c.topo.ports[i]).map(|p| PortSpec { log_sync: 3, master_only: c.master_only.contains(&(i, p)), receipt_timeout: if c.receipt_timeout == 0 { 3 } else { c.receipt_timeout }, ..Default::default() }).collect();
     n
 }
 
@@ -112,7 +115,8 @@ pub fn net_spec(c: &Config, horizon_s: u64) -> NetSpec {
         },
         horizon_ns: horizon_s * SEC,
         delay_min_ns: 10_000,
-        delay_max_ns: 900_000,
+        // (with the minimum receipt timeout: deliveries up to 80 ms late)
+        delay_max_ns: if c.receipt_timeout == 2 { 80_000_000 } else { 900_000 },
         oscillators: vec![],
         kalman: vec![],
         per_frame: None,
@@ -304,17 +308,17 @@ pub fn configs(tier: Tier) -> Vec<Config> {
                 }
                 let phase_sets: Vec<Vec<u8>> = if tier == Tier::Thorough { vec![vec![0; n], (0..n).map(|i| (i % 3) as u8).collect(), (0..n).map(|i| ((2 * i + 1) % 3) as u8).collect()] } else { vec![vec![0; n], (0..n).map(|i| ((i + 1) % 3) as u8).collect()] };
                 for phases in phase_sets {
-                    out.push(Config { topo: t.clone(), order: order.clone(), rank_by, best_low_class: false, low_class_node: None, slave_only_node: None, phases: phases.clone(), critical_phase_ns: None, master_only: vec![] });
+                    out.push(Config { topo: t.clone(), order: order.clone(), rank_by, best_low_class: false, low_class_node: None, slave_only_node: None, phases: phases.clone(), critical_phase_ns: None, master_only: vec![], receipt_timeout: 0 });
                     if rank_by == RankBy::Priority1 {
-                        out.push(Config { topo: t.clone(), order: order.clone(), rank_by, best_low_class: true, low_class_node: None, slave_only_node: None, phases: phases.clone(), critical_phase_ns: None, master_only: vec![] });
+                        out.push(Config { topo: t.clone(), order: order.clone(), rank_by, best_low_class: true, low_class_node: None, slave_only_node: None, phases: phases.clone(), critical_phase_ns: None, master_only: vec![], receipt_timeout: 0 });
                         // a non-best leaf with clockClass < 128, a slave-only leaf
                         for i in 0..n {
                             if t.ports[i] == 1 && order[i] != 0 {
-                                out.push(Config { topo: t.clone(), order: order.clone(), rank_by, best_low_class: false, low_class_node: Some(i), slave_only_node: None, phases: phases.clone(), critical_phase_ns: None, master_only: vec![] });
+                                out.push(Config { topo: t.clone(), order: order.clone(), rank_by, best_low_class: false, low_class_node: Some(i), slave_only_node: None, phases: phases.clone(), critical_phase_ns: None, master_only: vec![], receipt_timeout: 0 });
                                 // a slave-only instance is configured as the worst clock (IEEE 1588 gives it
                                 // clockClass 255): one that outranks every master never synchronises to anybody
                                 if order[i] == n - 1 {
-                                    out.push(Config { topo: t.clone(), order: order.clone(), rank_by, best_low_class: false, low_class_node: None, slave_only_node: Some(i), phases: phases.clone(), critical_phase_ns: None, master_only: vec![] });
+                                    out.push(Config { topo: t.clone(), order: order.clone(), rank_by, best_low_class: false, low_class_node: None, slave_only_node: Some(i), phases: phases.clone(), critical_phase_ns: None, master_only: vec![], receipt_timeout: 0 });
                                 }
                             }
                         }
@@ -343,6 +347,17 @@ pub fn configs(tier: Tier) -> Vec<Config> {
         let mut c2 = c.clone();
         c2.critical_phase_ns = Some(phases);
         out.push(c2);
+    }
+    // the minimum announceReceiptTimeout (2) on every port, with the receipt timers at the low end
+    // of their random range: the steady state must still not flap when a delivery is late
+    let base: Vec<Config> = out
+        .iter()
+        .filter(|c| c.rank_by == RankBy::Priority1 && !c.best_low_class && c.low_class_node.is_none() && c.slave_only_node.is_none() && c.critical_phase_ns.is_none() && matches!(c.topo.name.as_str(), "link-2" | "chain-3" | "shared-3" | "parallel-links-2"))
+        .cloned()
+        .collect();
+    for mut c in base {
+        c.receipt_timeout = 2;
+        out.push(c);
     }
     // masterOnly ports: every port of a boundary clock that ends up MASTER or PASSIVE in the default
     // execution faces away from the grandmaster and may be configured masterOnly; the hierarchy
